@@ -5,7 +5,7 @@
    conditioning point is outside it) and point m carries no measurement error (exact mode: C_mm + err_m
    = sill; otherwise err_m = 0). *)
 From Coq Require Import Reals List.
-From GS Require Import Num Loops Krigesum_gen C05_Mat C05_RInst C05_Model C05_Proofs C06_Proofs.
+From GS Require Import Num Loops Krigesum_gen C05_Mat C05_RInst C05_Model C05_Proofs C06_Proofs C05_Examples.
 
 (* at a conditioning point the right-hand side is the corresponding column of the kriging matrix *)
 Theorem C06_rhs_is_column :
